@@ -17,4 +17,24 @@ def jobs(tier, seed):
                       bound="%d live queries in arbitrary link state (on a connection + timeout index, or not); entry in "
                             "{ares_cancel, end_query(any query, any status), requeue with exhausted budget}; each callback "
                             "may re-enter ares_cancel or start a new request (depth 1)" % nq))
+    for entry in (0, 1):
+      for ni, nm in enumerate(["a", "a.b", "a."]):
+        for nd in (0, 1, 2):
+            for nos in (0, 1):
+                if nos and nd != 2:
+                    continue
+                J.append(dict(name="search_e%d_%s_nd%d_nosearch%d" % (entry, nm.replace(".", "dot"), nd, nos),
+                  harness="search.c",
+                  defines=["-DENTRY=%d" % entry, "-DNAME_IDX=%d" % ni, "-DND=%d" % nd, "-DNOSEARCH=%d" % nos],
+                  real=LIB + ["src/lib/str/ares_str.c", "src/lib/str/ares_strsplit.c", "src/lib/record/ares_dns_mapping.c",
+                              "src/lib/str/ares_buf.c", "src/lib/dsa/ares_array.c", "src/lib/util/ares_math.c",
+                              "src/lib/dsa/ares_llist.c"],
+                  support=["vp_rt.c", "valloc.c", "memloops.c", "lock_ghost.c", "dnsrec_abs.c"], unwind=17, leak=True,
+                  witnesses=["end"],
+                  bound="%s for name '%s', %d search domains of {x, y.z}, ndots 0..2, NOSEARCH=%d; "
+                        "ares_send_nolock: sync failure with ANY status 1..24 / sync answer / pending; nested completion "
+                        "abstracted by the induction hypothesis; any completion status, rcode 0..5, ancount 0..1; "
+                        "record duplicate / name rewrite may fail" %
+                        ("ares_search_dnsrec from scratch" if entry == 0 else
+                         "search_callback for ANY outstanding candidate index", nm, nd, nos)))
     return J
